@@ -23,25 +23,31 @@ def check(ck):
         f = repo.func(EXE, "execute_operation")
         fv = FuncView(f)
         p = f.positional_params
-        sel = None
-        for a in fv.awaits():
-            if isinstance(a.value, ast.IfExp):
-                sel = a.value
-        if sel is None:
-            # statement form
-            ser, con = fv.maybe_call("execute_fields_serially"), fv.maybe_call("execute_fields")
-            ok = ser is not None and con is not None and fv.guarded(ser, lambda t: t == f"{p[1]}.operation_type == 'mutation'", "T") and \
-                fv.guarded(con, lambda t: t == f"{p[1]}.operation_type == 'mutation'", "F")
-            ck.ob("execute_operation: mutation -> serial executor, otherwise the concurrent one", ok, f, ser or f.node, construct="select:by-type")
-        else:
-            t, a, b = ifexp_parts(sel)
-            ok = t == f"{p[1]}.operation_type == 'mutation'" and a.startswith("execute_fields_serially(") and b.startswith("execute_fields(")
-            ck.ob("execute_operation: mutation -> serial executor, otherwise the concurrent one", ok, f, sel, construct="select:by-type", detail=f"test `{t}`")
+        # path rows, operands resolved (the executor may be picked into a local first, or by a conditional expression)
+        from ..pathtab import outcome_rows as _rows, truth as _truth
+        from ..q import inlined_view as _iv
+        seen_ = {}
+        cases_ = []
+        for r_ in _rows(fv):   # (the executors are functions of this module: not looked through)
+            if r_["exit"] != "return_exit" or r_["ret"] is None:
+                continue
+            v_ = strip_await(r_["ret"])
+            if isinstance(v_, ast.IfExp):   # `await (A(...) if c else B(...))`: one case per arm
+                cases_.append((r_, v_.body, "T" if unparse(v_.test) == f"{p[1]}.operation_type == 'mutation'" else None))
+                cases_.append((r_, v_.orelse, "F" if unparse(v_.test) == f"{p[1]}.operation_type == 'mutation'" else None))
+            else:
+                cases_.append((r_, v_, _truth(r_, f"{p[1]}.operation_type == 'mutation'")))
+        for r_, call_, mut in cases_:
+            if not isinstance(call_, ast.Call) or callee_last(call_) not in ("execute_fields_serially", "execute_fields"):
+                continue
+            a_ = [unparse(x) for x in call_.args]
+            ok_ops = len(a_) == 5 and a_[0] == p[0] and a_[2] == p[2] and a_[3] == "None" and a_[1].endswith(f"get_operation_root_type({p[1]})") and "collect_fields(" in a_[4]
+            seen_[(mut, callee_last(call_))] = ok_ops and isinstance(r_["ret"], ast.Await)
+        ck.ob("execute_operation: mutation -> serial executor, otherwise the concurrent one", set(seen_) == {("T", "execute_fields_serially"), ("F", "execute_fields")}, f, f.node,
+              construct="select:by-type", detail=str(sorted(map(str, seen_))))
         for name in ("execute_fields_serially", "execute_fields"):
-            c = fv.maybe_call(name)
-            want = [p[0], "operation_root_type", p[2], "None", "fields"]
-            ck.ob(f"execute_operation: {name} gets (ctx, operation root type, root value, no path, collected root fields)", c is not None and [unparse(x) for x in c.args] == want, f,
-                  c or f.node, construct=f"select:operands:{name}")
+            oks = [v for (m_, n_), v in seen_.items() if n_ == name]
+            ck.ob(f"execute_operation: {name} gets (ctx, operation root type, root value, no path, collected root fields)", bool(oks) and all(oks), f, f.node, construct=f"select:operands:{name}")
         cf = fv.maybe_call("collect_fields")
         ck.ob("execute_operation: root fields are collected from the operation's selection set for the operation's root type",
               cf is not None and [unparse(x) for x in cf.args] == [p[0], "operation_root_type", f"{p[1]}.selection_set"], f, cf or f.node, construct="select:collect")
